@@ -338,7 +338,9 @@ def frames(chunks):
 
 
 class Pair:
-    def __init__(self):
+    def __init__(self, lazy=False):
+        """lazy: no handler is registered at creation; register(side, method) adds one later (pygls allows
+        registration at any time: the history between protocol creation and a trip is part of the case)"""
         from lsprotocol import types as t
         from pygls.lsp.server import LanguageServer
         from pygls.lsp.client import BaseLanguageClient
@@ -367,21 +369,34 @@ class Pair:
                 return real(message)
             p.handle_message = spy
             end.report_server_error = (lambda e, src, side=side: self.errors[side].append(type(e).__name__))
-        for m in t.METHOD_TO_TYPES:
-            d = t.message_direction(m)
-            for side in ("Server", "Client"):
-                receives = d == "both" or (d == "clientToServer") == (side == "Server")
-                if receives and m != t.WORKSPACE_EXECUTE_COMMAND:
-                    def h(*args, m=m, side=side):
-                        self.got[side].append((m, args))
-                        return self.results.get(m)
-                    self.ends[side].feature(m)(h)
-        def cmd(*args):
-            self.got["Server"].append((t.WORKSPACE_EXECUTE_COMMAND, args))
-            return self.results.get(t.WORKSPACE_EXECUTE_COMMAND)
-        self.server.command(CMD)(cmd)
+        self.registered = set()
+        if not lazy:
+            for m in t.METHOD_TO_TYPES:
+                d = t.message_direction(m)
+                for side in ("Server", "Client"):
+                    receives = d == "both" or (d == "clientToServer") == (side == "Server")
+                    if receives:
+                        self.register(side, m)
         self.tasks = [asyncio.ensure_future(run_async(self.stop, self.readers[s], self.ends[s].protocol, None,
                                                       priv.error_handler(self.ends[s]))) for s in ("Server", "Client")]
+
+    def register(self, side, m):
+        """register the recording handler for method m on that side (once)"""
+        from lsprotocol import types as t
+        if (side, m) in self.registered:
+            return
+        self.registered.add((side, m))
+        if m == t.WORKSPACE_EXECUTE_COMMAND:
+            if side == "Server":
+                def cmd(*args):
+                    self.got["Server"].append((t.WORKSPACE_EXECUTE_COMMAND, args))
+                    return self.results.get(t.WORKSPACE_EXECUTE_COMMAND)
+                self.server.command(CMD)(cmd)
+            return
+        def h(*args, m=m, side=side):
+            self.got[side].append((m, args))
+            return self.results.get(m)
+        self.ends[side].feature(m)(h)
 
     def reset(self):
         for w in self.writers.values():
@@ -417,7 +432,8 @@ class C13(core.Property):
     coq_targets = ["Props/C13.vo", "Extract/ExtractC13.vo"]
     rule = ("trip: every helper of the regenerated table x n seeded instances of its params (and result) type; "
             "non-trivial = the params instance has >= 1 optional/union/enum/sequence field populated (or the method "
-            "has a result type). recv: all 8 id/method/error rows x unknown / registry request / registry "
+            "has a result type); plus per helper the receiver's histories before the trip on one fresh pair "
+            "(message of the same method before / after the late registration of its handler, then the trip). recv: all 8 id/method/error rows x unknown / registry request / registry "
             "notification methods x payload shapes, responses to outstanding requests, random generic objects with "
             "identifier / non-identifier / keyword / underscore / rename-colliding member names at several depths, the "
             "finding classes and a malformed stream; non-trivial = nested payload or a member needing rename. "
@@ -534,6 +550,12 @@ class C13(core.Property):
                     if slot in (2, 3, 4, 5, 6):
                         c["ops"] = OPS[(rot + j) % len(OPS)]
                 cases.append(c)
+            # histories of the RECEIVER between its creation and the trip, on one protocol instance: earlier
+            # messages of the same method arrive before / after the handler is registered (a request for a
+            # method nobody listens to is answered MethodNotFound, a notification is ignored), then the trip
+            for j in range(chk.n(len(self.PRE), 4 * len(self.PRE))):
+                cases.append({"k": "trip", "side": h["side"], "helper": h["name"], "seed": rng.randrange(10 ** 9),
+                              "pre": self.PRE[(rot + j) % len(self.PRE)]})
         cases.extend(self._recv_cases(chk))
         cases.extend(self._btrip_cases(chk))
         cases.extend(self._stream_cases(chk))
@@ -543,6 +565,8 @@ class C13(core.Property):
             if c["k"] == "trip" and "pop" not in c:
                 c["pop"] = self._trip_instances(c)[3]
         return cases
+
+    PRE = [["msg", "reg"], ["reg", "msg"], ["msg", "msg", "reg"]]
 
     KEYS_GOOD = ["a", "b", "foo", "count", "index", "x1", "camelCase", "snake_case", "A", "type_name", "Object"]
     KEYS_BAD = ["1a", "b c", "", "a-b", "$x", "a.b", "9"]
@@ -950,6 +974,14 @@ class C13(core.Property):
         for n, c in enumerate(cases):
             try:
                 if c["k"] == "trip":
+                    if c.get("pre"):                     # the receiver's whole life is part of the case: own pair
+                        own = Pair(lazy=True)
+                        try:
+                            out[n] = await asyncio.wait_for(self._trip(own, c), 20)
+                        except Exception as ex:
+                            out[n] = ["raise", type(ex).__name__]
+                        await own.close()
+                        continue
                     if pair is None:
                         pair = Pair()
                     try:
@@ -1014,6 +1046,9 @@ class C13(core.Property):
         if fn is None:
             return ["no-helper"]
         m, params, result, _pop = self._trip_instances(c)
+        if c.get("pre") and m is not None:
+            pair.results[m] = result
+            await self._prehistory(pair, c, side, other, m)
         pair.reset()
         if m is not None:
             pair.results[m] = result
@@ -1117,6 +1152,31 @@ class C13(core.Property):
 
     NOTE_HELPER = {"Client": "initialized", "Server": "window_log_message"}
 
+    async def _prehistory(self, pair, c, side, other, m):
+        """what happened on this pair before the trip: earlier messages of the same method, the (late)
+        registration of its handler on the receiving side"""
+        sender = pair.ends[side]
+        row = self._helper_row(c)
+        for n, op in enumerate(c["pre"]):
+            if op == "reg":
+                pair.register(other, m)
+                continue
+            _m, p2, _r, _p = self._trip_instances({"side": side, "helper": c["helper"], "seed": c["seed"] + 1 + n})
+            seen, fut = len(pair.handled[other]), None
+            if row["kind"] == "HNotify":
+                getattr(sender, c["helper"])(p2)
+            else:
+                base = c["helper"][:-6] if c["helper"].endswith("_async") else c["helper"]
+                fut = getattr(sender, base)(p2)
+                if hasattr(fut, "add_done_callback"):
+                    fut.add_done_callback(lambda f: f.cancelled() or f.exception())
+            for _ in range(2000):
+                await asyncio.sleep(0)
+                if (fut.done() if hasattr(fut, "done") else len(pair.handled[other]) > seen):
+                    break
+            for _ in range(30):
+                await asyncio.sleep(0)
+
     async def _history(self, pair, c, side, other, ops, wire_id, params):
         """what a requester may do while its request is pending (the reply is held on the wire)"""
         t = self._types()
@@ -1140,9 +1200,13 @@ class C13(core.Property):
     def _history_events(self, c):
         """the same history for the model: Model.ev"""
         row = self._helper_row(c)
-        if row["kind"] == "HNotify":
-            return []
         evs = []
+        for n, op in enumerate(c.get("pre", [])):        # earlier messages of the same requester
+            if op == "msg":
+                evs.append(("1 " + enc_str(row["method"])) if row["kind"] == "HNotify" else
+                           ("0 " + enc_str(row["method"]) + " " + enc_json(f"c13-pre-{n}")))
+        if row["kind"] == "HNotify":
+            return evs
         for n, op in enumerate(c.get("ops", [])):
             if op == "cancel": evs.append("1 " + enc_str("$/cancelRequest"))
             elif op == "second": evs.append("0 " + enc_str(row["method"]) + " " + enc_json(f"c13-second-{n}"))
@@ -1595,6 +1659,7 @@ class C13(core.Property):
                 d["trip/" + c["side"]] += 1
                 if "falsy" in c: d["trip/falsy-result"] += 1
                 if c.get("ops"): d["trip/history"] += 1
+                if c.get("pre"): d["trip/receiver-history:" + ",".join(c["pre"])] += 1
             elif c["k"] == "btrip": d["builtin-on/" + c["method"]] += 1
             elif c["k"] == "stream": d["stream/" + next(f[1] for f in c["frames"] if f[0] == "bad")] += 1
             elif c["k"] == "recv": d["recv/" + (c.get("klass") or ("malformed" if c.get("malformed") else "stream"))] += 1
